@@ -23,7 +23,7 @@ ALPHABET = {
                    "(null rates) placed last (thorough: also first, and the reversed species order)",
     "cx receiver / line": {k: list(v[:2]) + [list(v[2])] for k, v in R.CX_LINE.items()},
     "metastables": "M in {1,2,3}; position of the ground-state rate in the provider's list: first / last (thorough: middle)",
-    "provider": {"A": "q increasing with m, small populations", "B": "q decreasing with m, populations > 1",
+    "provider": {"D": "excited metastable m=2 populated but with a null CX coefficient", "A": "q increasing with m, small populations", "B": "q decreasing with m, populations > 1",
                  "C": "ground-state q in the middle (thorough)"},
     "flow": R.FLOW_DIR, "B field": ["zero", "position dependent, |B| ~ 2 T"],
     "beam energy eV/amu": {"quick": [1e4, 8e4], "thorough": [1e4, 4e4, 8e4]},
@@ -31,9 +31,9 @@ ALPHABET = {
     "beam points (beam space)": R.BEAM_POINTS, "plasma points (plasma space)": R.PLASMA_POINTS,
 }
 BOUND = {
-    "quick": "receivers {C6, D1}; neutral last; M-config {1, 2 ground-first, 3 ground-last}; providers A,B; 3 flows; 2 B; "
+    "quick": "receivers {C6, D1}; neutral last; M-config {1, 2 ground-first, 3 ground-last}; providers A,B,D; 3 flows; 2 B; "
              "BES: all 25 ion subsets; inner lattice 2 energies x 2 beam directions x 5 beam points x 6 plasma points",
-    "thorough": "all 5 receivers; neutral absent/first/last; species order as listed and reversed; 6 M-configs; providers A,B,C; "
+    "thorough": "all 5 receivers; neutral absent/first/last; species order as listed and reversed; 6 M-configs; providers A,B,C,D; "
                 "3 flows; 2 B; inner lattice 3 energies x 3 beam directions x 5 beam points x 6 plasma points",
 }
 RULE = ("one case per (model, ordered composition, receiver, metastable configuration, provider, flow, B) = one scene built; "
@@ -54,7 +54,7 @@ ASSUMPTIONS = [
     "claim holds only on the declared lattice",
 ]
 REQUIRED_CLASSES = [
-    "cx:species-replaced-after-evaluation", "bes:species-replaced-after-evaluation", "cx:emitting", "cx:zero:beam", "cx:zero:receiver", "cx:neutral-present", "cx:ions-only", "cx:M=1", "cx:M=2", "cx:M=3",
+    "cx:species-replaced-after-evaluation", "bes:species-replaced-after-evaluation", "cx:composition-reassigned-without-a-species", "bes:composition-reassigned-without-a-species", "cx:emitting", "cx:zero:beam", "cx:zero:receiver", "cx:neutral-present", "cx:ions-only", "cx:M=1", "cx:M=2", "cx:M=3",
     "cx:ground-last", "cx:flow=none", "cx:flow=along", "cx:flow=oblique", "cx:B=zero", "cx:B=on", "cx:single-ion",
     "cx:multi-ion", "cx:other-ion-zero", "cx:q-spread", "cx:population>1", "cx:population<1", "cx:nonunit-direction",
     "bes:emitting", "bes:zero:beam", "bes:zero:ions", "bes:neutral-present", "bes:ions-only", "bes:single-ion",
@@ -104,7 +104,7 @@ def cases(tier):
     quick = tier == "quick"
     receivers = ["C6", "D1"] if quick else ["C6", "D1", "He2", "C5", "Ne10"]
     mcfgs = ["M1", "M2-gfirst", "M3-glast"] if quick else ["M1", "M2-gfirst", "M3-glast", "M2-glast", "M3-gfirst", "M3-gmid"]
-    provs = ["A", "B"] if quick else ["A", "B", "C"]
+    provs = ["A", "B", "D"] if quick else ["A", "B", "C", "D"]      # D: an excited metastable with a null CX coefficient and a non-zero population
     flows = ["none", "along", "oblique"]
     bs = ["zero", "on"]
     out = []
@@ -532,6 +532,28 @@ def run_case(case):
                          "expected": fresh, "observed": live})
     except Exception as e:  # noqa
         viol.append({"sig": "C05:%s:species-replaced-after-evaluation:raises:%s" % (mname, type(e).__name__), "what": "replacing a species after an evaluation",
+                     "expected": "an emission value", "observed": repr(e)[:200]})
+    # ---- the composition is assigned twice more on the live plasma: first with one more ion, then without it again.  The scene must
+    # then be the one in which that ion never existed (the scene `fresh` above was evaluated in).
+    try:
+        xk = next(k for k in R.ION_POOL[::-1] if k not in case["comp"])
+        xel = getattr(em, R.SPECIES[xk][0])
+        xsp = Species(xel, R.SPECIES[xk][1], Maxwellian(lambda x, y, z: 3.0e18, lambda x, y, z: 800.0, lambda x, y, z: Vector3D(0, 0, 0), xel.atomic_weight * R.AMU))
+        current = list(plasma.composition)
+        plasma.composition = current + [xsp]
+        with_x = evaluate(model, beam)
+        plasma.composition = current
+        live2 = evaluate(model, beam)
+        n += 4
+        classes.append(kind + ":composition-reassigned-without-a-species")
+        if any(f != b for f, b in zip(with_x, fresh)):
+            nontrivial.add((ckey, "species-dropped"))
+        if not all(_close(a, b, 1e-12) or a == b for a, b in zip(live2, fresh)):
+            viol.append({"sig": "C05:%s:composition-reassigned-without-a-species:differs-from-scene-that-never-had-it:%s" % (mname, neut),
+                         "what": "plasma.composition = species + [%s], evaluate, plasma.composition = species, evaluate" % xk,
+                         "expected": fresh, "observed": live2})
+    except Exception as e:  # noqa
+        viol.append({"sig": "C05:%s:composition-reassigned-without-a-species:raises:%s" % (mname, type(e).__name__), "what": "re-assigning the composition after an evaluation",
                      "expected": "an emission value", "observed": repr(e)[:200]})
     # per-case class labels
     classes += [kind + ":" + neut, kind + (":multi-ion" if nions > 1 else ":single-ion")]
